@@ -73,7 +73,7 @@ func lruOracle(s disk.VerifSnapshot, max int64) string {
 	return ""
 }
 
-func lruDriver(seed uint64, n int, outV, outJSON string, _ []string) {
+func lruDriver(seed uint64, n int, outV, outJSON string, args []string) {
 	r := &Rng{S: seed}
 	rep := NewReport("lru", seed)
 	rep.Rule = "random SizedLRU histories (Add/overwrite, Get, RemoveKey, RemoveElement via fresh handle, Reserve, Unreserve, Drain) over 6 keys; sizes drawn from block-edge classes relative to max_size; a case is non-trivial if at least one eviction or one refusal occurred; distinct = distinct canonical case texts among those"
@@ -296,6 +296,18 @@ func lruDriver(seed uint64, n int, outV, outJSON string, _ []string) {
 		cases = append(cases, fmt.Sprintf("(%s, %s, %s,\n  %s)", CZ(max), CZ(hard), CList(ops), CList(obs)))
 	}
 	rep.Cases = n
-	WriteCases(outV, "Model.LRU", "Z * Z * list op * list (out * snap)", "case_ok", cases)
+	// "gen": the same histories, evaluated by the TRANSLATED lru.go (Gen/LRUSrc.v through
+	// Model/GoLRURun.v) instead of the hand-written model: validates the translator against the code.
+	gen := false
+	for _, a := range args {
+		if a == "gen" {
+			gen = true
+		}
+	}
+	if gen {
+		WriteCases(outV, "Model.LRU Model.GoLRU Model.GoLRURun", "Z * Z * list op * list (out * snap)", "gcase_ok", cases)
+	} else {
+		WriteCases(outV, "Model.LRU", "Z * Z * list op * list (out * snap)", "case_ok", cases)
+	}
 	rep.Write(outJSON)
 }
